@@ -45,3 +45,10 @@ Definition iqtype_get : bytes := hex "676574".
 Definition iqtype_set : bytes := hex "736574".
 Definition iqtype_result : bytes := hex "726573756c74".
 Definition iqtype_error : bytes := hex "6572726f72".
+
+Inductive name_src := NsZero | NsStanza | NsChild. (* xml.Name{}; the stanza's own start.Name; the current child's start.Name *)
+Definition child_lookup_arg_message : name_src := NsChild.
+Definition child_lookup_arg_presence : name_src := NsChild.
+Definition wildcard_lookup_arg_message : name_src := NsZero.
+Definition wildcard_lookup_arg_presence : name_src := NsZero.
+Definition bufreader_buffers_token_with_error : bool := true. (* a token that comes with an error is appended to the buffer all the same *)
